@@ -1,6 +1,7 @@
 """C07 — TraitSet refines set; events are faithful deltas; copies still validate.
 spec/TraitSet.tla, TraitSetMC (enumeration), Trace_TraitSet (judge). Pure driver: every verdict is TLC's."""
 import copy
+import zlib
 import json
 import os
 import pickle
@@ -115,7 +116,38 @@ def _set_owner(vm):
     return _owners[vm]
 
 
-def execute(pre, op, a, args, vm):
+_shaped = {}
+
+
+def _shaped_owner(vm, shape):
+    """shape 1: HasTraits with values = Set(T); shape 2: HasStrictTraits with values = Union(None, Set(T)) - no class-level
+    values_items trait exists, the items event trait is made on demand; shape 3: as 1 with an owner that is falsy"""
+    key = (vm, shape)
+    if key not in _shaped:
+        from traits.api import Any, HasStrictTraits, HasTraits, Set, TraitType, Union
+
+        class CoerceItem(TraitType):
+            def validate(self, object, name, value):
+                return _coerce_validator(value)
+        item = CoerceItem() if vm == "coerce" else Any()
+        if shape == 2:
+            cls = type("SetOwnerStrict_" + vm, (HasStrictTraits,), {"values": Union(None, Set(item))})
+        elif shape == 3:
+            cls = type("SetOwnerFalsy_" + vm, (HasTraits,), {"values": Set(item), "__len__": lambda self: 0})
+        else:
+            cls = type("SetOwnerPlain_" + vm, (HasTraits,), {"values": Set(item)})
+        _shaped[key] = cls
+    return _shaped[key]
+
+
+def execute(pre, op, a, args, vm, owner=0):
+    r = _execute(pre, op, a, args, vm, owner)
+    if owner:
+        r["owner"] = owner
+    return r
+
+
+def _execute(pre, op, a, args, vm, owner=0):
     build.install()
     from traits.trait_set_object import TraitSet
     from traits.trait_errors import TraitError
@@ -168,6 +200,16 @@ def execute(pre, op, a, args, vm):
                 ts = c                       # the probe is applied to the copy
                 ts.add(conc(vm, a[1]))
                 post = proj_set(ts)
+        elif owner:
+            # the TraitSetObject of a Set trait, its events being what the owner's values_items handler receives
+            def handler(event):
+                events.append({"removed": proj_set(event.removed), "added": proj_set(event.added)})
+            o = _shaped_owner(vm, owner)()
+            o.values = set(pre)
+            o.on_trait_change(handler, "values_items")
+            ts = o.values
+            ret = perform(ts, op, a, args, vm)
+            post = proj_set(ts)
         else:
             ts = TraitSet(set(pre), item_validator=val, notifiers=[rec])
             ret = perform(ts, op, a, args, vm)
@@ -206,11 +248,16 @@ def case_fn(st, rep):
     last = st["last"]
     if last["op"] == "init":
         return None
-    if last["op"] == "pop" and rep == 0 and last["ret"] != NONE:
+    if last["op"] == "pop" and last["ret"] != NONE:
         # pop is nondeterministic in the spec (one case per member); the code pops one member: run once
         if last["ret"] != min(last["pre"]):
             return None
-    r = execute(sorted(last["pre"]), last["op"], list(last["a"]), [sorted(A) for A in last["args"]], last["vm"])
+    own = 0
+    if rep == 1:
+        if last["op"] in ("construct", "copyadd"):
+            return None
+        own = 1 + zlib.crc32(repr(sorted(last["pre"])).encode() + last["op"].encode()) % 3
+    r = execute(sorted(last["pre"]), last["op"], list(last["a"]), [sorted(A) for A in last["args"]], last["vm"], own)
     return {"fail": None, "line": r, "sample": r}
 
 
@@ -223,6 +270,7 @@ def history_lines(seed, ntraces, steps):
         vm = rnd.choice(["id", "coerce"])
         items = [1, 2, 3, 4] + ([11, 12, 99] if vm == "id" else [])
         cur = sorted(set(rnd.choice(items) for _ in range(rnd.randint(0, 5))))
+        own = rnd.choice([0, 0, 1, 2, 3])
         for _ in range(steps):
             op = rnd.choice(ops)
             a = [0, 0]
@@ -245,7 +293,7 @@ def history_lines(seed, ntraces, steps):
                     a[0] = 1
             elif op == "copyadd":
                 a = [rnd.randint(0, 6), rnd.choice([3, 11, 99, 1])]
-            r = execute(cur, op, a, args, vm)
+            r = execute(cur, op, a, args, vm, own if op != "copyadd" else 0)
             r["tid"] = t
             out.append(r)
             if op != "copyadd":
@@ -262,7 +310,7 @@ def sig_of(rec, cl):
         return "C07:KF24:TraitSetObject-pickled-alone-no-longer-validates"
     if rec["op"] == "copyadd" and rec["a"][0] == 1 and rec["exc"] == "AttributeError":
         return "C07:F2:deepcopy-AttributeError-validator"
-    return "C07:judge:%s:%s" % (rec["op"], "+".join(cl))
+    return "C07:judge:%s%s:%s" % (rec["op"], ":Set-trait-shape%d" % rec["owner"] if rec.get("owner") else "", "+".join(cl))
 
 
 def run(rep, tier, seed):
@@ -274,7 +322,7 @@ def run(rep, tier, seed):
         res = tlc.run_tlc("TraitSetMC", cfg, dump=dump, timeout=3000, workers=8)
         rep.add_tlc("TraitSetMC", res)
         trace = os.path.join(work, "trace.ndjson")
-        tot = cases.run_dump_cases(dump + ".dump", case_fn, out_ndjson=trace)
+        tot = cases.run_dump_cases(dump + ".dump", case_fn, out_ndjson=trace, reps=2)
         os.unlink(dump + ".dump")
         if tot["ncases"] == 0:
             raise MachineryError("no cases in dump")
@@ -307,6 +355,6 @@ def replay(rep, path):
     build.install()
     obj = json.load(open(path))
     rec = (obj.get("case") or {}).get("record")
-    r = execute(rec["pre"], rec["op"], rec["a"], rec["args"], rec["vm"])
+    r = execute(rec["pre"], rec["op"], rec["a"], rec["args"], rec["vm"], rec.get("owner", 0))
     print("recorded:", rec)
     print("now     :", r)
